@@ -84,7 +84,8 @@ m = {
  "version": 1,
  "setup_cmd": "./setup.sh",
  "hooks": {"guard": "PYXAB_VERIF_TRACE", "enable": "no source hooks: the recorder wraps Partition.make_children per instance and drives the public API from outside (harness/recorder.py)", "baseline_off_cmd": "cd /repo && /venv/bin/python -m pytest -q -p no:cacheprovider --timeout=900", "source_commits": [], "add_only": True},
- "engines": [{"name": "tlc", "path": "/verif/spec", "serves_properties": sorted(CLAIMED), "kind_free_text": "explicit TLA+ specification, TLC exhaustive model checking, TLC batch trace validation, replay of TLC behaviours"}],
+ "engines": [{"name": "tlc", "path": "/verif/spec", "serves_properties": sorted(CLAIMED), "kind_free_text": "explicit TLA+ specification, TLC exhaustive model checking, TLC batch trace validation, replay of TLC behaviours"},
+             {"name": "apalache", "path": "/verif/spec/apalache", "serves_properties": ["C02", "C09"], "kind_free_text": "symbolic one-step tiling obligations (APA_Tiling) and the inductive invariant of the GPO schedule for symbolic N, H (APA_GPO); both inside the TLC-based checks of C02 / C09"}],
  "checks": checks,
  "not_applicable": na,
  "notes": "All checks: exit 0 = held, 1 = VIOLATION line, 2 = machinery failure.  Known findings: /verif/known_findings.json.",
